@@ -41,6 +41,9 @@ def run(ctx):
     _run(ctx)
     reader_seek_rule(ctx, ctx.facts("default"))
     reader_state_rule(ctx, ctx.facts("default"))
+    ctx.delegate("C03", ["C03.size"], "C15.step",
+                 "iteration stays in step with the index: a record is accepted only when its declared length is exactly what the "
+                 "reader consumes, so the tracked position is the real one when the seek is skipped", floor=20)
     ctx.delegate("C14", ["C14.seek", "C14.one", "C14.end"], "C15.iter",
                  "an iteration begun at a position yields exactly the records from there on: one index entry per item, a seek "
                  "whenever the entry's offset differs from the tracked position, the end when the index is exhausted", floor=5)
